@@ -622,15 +622,16 @@ func (p *Proxy) Register(info ServerInfo) (RegisteredServer, error) {
 		}
 		return exists, ErrServerAlreadyExists
 	}
-	defer p.muS.Unlock()
 	rs := newRegisteredServer(info)
 	p.servers[name] = rs
 	// Note: We don't mark API-registered servers as config-managed
 	// so they won't be unregistered during config reloads
+	p.muS.Unlock()
 
 	p.log.Info("registered new server", "name", info.Name(), "addr", info.Addr())
 
-	// Fire ServerRegisteredEvent
+	// Fire ServerRegisteredEvent after releasing muS:
+	// subscribers may call Server/Servers/Register/Unregister.
 	p.event.Fire(&ServerRegisteredEvent{server: rs})
 
 	return rs, nil
@@ -644,9 +645,9 @@ func (p *Proxy) Unregister(info ServerInfo) bool {
 	}
 	name := strings.ToLower(info.Name())
 	p.muS.Lock()
-	defer p.muS.Unlock()
 	rs, ok := p.servers[name]
 	if !ok || !ServerInfoEqual(rs.ServerInfo(), info) {
+		p.muS.Unlock()
 		return false
 	}
 	delete(p.servers, name)
@@ -658,11 +659,13 @@ func (p *Proxy) Unregister(info ServerInfo) bool {
 			p.log.Error(err, "could not remove via backend", "server", info.Name())
 		}
 	}
+	p.muS.Unlock()
 
 	p.log.Info("unregistered backend server",
 		"name", info.Name(), "addr", info.Addr())
 
-	// Fire ServerUnregisteredEvent
+	// Fire ServerUnregisteredEvent after releasing muS:
+	// subscribers may call Server/Servers/Register/Unregister.
 	p.event.Fire(&ServerUnregisteredEvent{server: info})
 
 	return true
